@@ -13,7 +13,7 @@ Driver for C04.  Input lines (one case = `cfg` … `end`):
   net replay <k>                   deliver the k-th message of the relay's history again
   inject <A|B> <code> <tok> <b1|-> <b2|-> <s1|-> <s2|-> <etag|-> <other|-> <seed> <off> <len>
                                    the network hands a crafted message to that side (payload = bytes [off, off+len) of body(seed))
-  sleep <ms>     tick <A|B>     end
+  sleep <ms>     tick <A|B>     settle (reports `queue <n>`: messages in flight)     end
 
 Output: the events observed after the operation, ` ; ` separated (`none` if nothing happened):
   wire <S> <msg> · arr <S> <msg> · dlv <S> <msg> · ret <tok> ok <msg> · ret <tok> err · wret <S> <tok> ok|err · err <S>
@@ -160,6 +160,7 @@ def modelStep (s : MState) (line : String) : MState × String :=
     match parseSide sd with
     | some sd => let s' := { s with w := s.w.tick sd }; (s', sizesStr s')
     | none => (s, "bad-op")
+  | ["settle"] => (s, s!"queue {s.w.queue.length}")
   | ["end"] =>
     if !s.active then (s, "end") else
     let (w, evs) := s.w.sleep (ms 3600000)
@@ -201,7 +202,8 @@ def parseObserved (s : String) : Option (List Ev) :=
     | "arr" :: sd :: rest => do let sd ← parseSide sd; let m ← parseSeen rest; some (Ev.arrive (sideNat sd) m :: acc)
     | "dlv" :: sd :: rest => do let sd ← parseSide sd; let m ← parseSeen rest; some (Ev.deliver (sideNat sd) m :: acc)
     | "ret" :: tok :: _ => do let tok ← tok.toNat?; some (Ev.returned tok :: acc)
-    | ["wret", _, _, _] => some acc
+    | ["wret", sd, tok, r] => do let sd ← parseSide sd; let tok ← tok.toNat?; some (Ev.wrote (sideNat sd) tok (r == "ok") :: acc)
+    | ["queue", n] => n.toNat?.map (fun n => Ev.settled n :: acc)
     | ["err", _] => some acc
     | "sizes" :: _ => some acc
     | _ => none) (some [])
@@ -219,6 +221,11 @@ def judgeLine (s : JState) (line : String) : JState × String :=
       let etag ← parseEtag etag; let other ← parseOther other
       some [Ev.sent { side := sideNat sd, tok := tok, code := code, etag := etag, other := other, body := genBody seed 0 len }]
     | ["do", tok, _] => tok.toNat?.map (fun t => [Ev.started t])
+    | ["net", "deliver"] => some []
+    | "net" :: _ => some [Ev.disturbed]
+    | "inject" :: _ => some [Ev.disturbed]
+    | "sleep" :: _ => some [Ev.disturbed]
+    | "tick" :: _ => some [Ev.disturbed]
     | ["end"] => some []
     | _ => some []
   let post : List Ev := if words inp == ["end"] then [Ev.finished] else []
